@@ -461,7 +461,7 @@ const (
 func drawCase(rt *rapid.T) Case {
 	c := Case{Scheme: rp.Pick(rt, "scheme", "x509", "x509", "sa"), Format: rp.Pick(rt, "format", envb.MTJWS, envb.MTCOSE),
 		TSAction: rp.Pick(rt, "tsAction", "enforce", "log"), TSARev: "ok", Token: "absent"}
-	c.Expiry = rp.Pick(rt, "expiry", 0, 0, -365*day, -hour, -30, -5, 120, hour, 365*day) // the future side keeps 2 min so that a stalled process cannot flip the verdict
+	c.Expiry = rp.Pick(rt, "expiry", 0, 0, -365*day, -hour, -30, -5, 120, hour, 365*day, -57*365*day, -130*365*day) // also: before 1970 and before 1900 (years the envelope formats can still write down) // the future side keeps 2 min so that a stalled process cannot flip the verdict
 	n := rapid.IntRange(1, 4).Draw(rt, "chainLen")
 	nbs := []int64{-20 * day, -10 * day, -5 * day, hour}
 	nas := []int64{-2 * day, -hour, hour, 10 * day, 20 * day}
